@@ -159,9 +159,10 @@ def evaluate(e, macros=None, evaluated=True, _depth=0, _active=()):
             return wrap(r, True) if u else (r, False)
         if op in ("/", "%"):
             if y == 0:
-                if evaluated:
-                    raise UB("division by zero")
-                return (0, u)
+                # also when the operand is not evaluated: gcc gives an unevaluated x/0 the type of x
+                # instead of the common type (implementation artefact), so such expressions are kept
+                # out of the domain altogether
+                raise UB("division by zero" if evaluated else "division by zero (unevaluated)")
             if u:
                 return (x // y, True) if op == "/" else (x % y, True)
             if x == I64_MIN and y == -1:
